@@ -145,7 +145,7 @@ pub struct Client {
     pub restarts: Vec<usize>,
     pub rollbacks: Vec<RollbackObs>,
     pub rollbacks_seen: usize,
-    /// commits this client applied, as (relay idx, step, state before)
+    /// commits this client applied, as (relay idx, delivery sequence number (0 for local merges), state before)
     pub applied: Vec<(usize, usize, Option<StateKey>)>,
     pub evicted_at: Option<usize>,
     /// relay index of the commit whose processing made the group inactive here
@@ -529,6 +529,8 @@ pub struct World {
     /// no exclusion of known findings by construction (witness runs)
     pub strict: bool,
     pub debug_logs: bool,
+    /// incremented for every delivery (finer than `step`)
+    pub delivery_seq: usize,
 }
 
 pub fn relay_url(n: u8) -> RelayUrl {
@@ -681,6 +683,7 @@ impl World {
             setup: setup.clone(),
             strict: false,
             debug_logs: std::env::var("VCHECK_LOGS").is_ok(),
+            delivery_seq: 0,
         };
         // deliver the initial welcomes
         for (k, rumor) in res.welcome_rumors.iter().enumerate() {
@@ -932,7 +935,8 @@ impl World {
                 Ok(()) => {
                     let step = self.step;
                     self.clients[m].immediate.push(idx);
-                    self.clients[m].applied.push((idx, step, before));
+                    let _ = step;
+                    self.clients[m].applied.push((idx, 0, before));
                     self.clients[m].own_pending = None;
                     self.count("apply:immediate");
                     self.note(format!("c{m} merge_pending_commit (immediate) of #{idx}"));
@@ -1370,7 +1374,8 @@ impl World {
                     if r.is_ok() {
                         let step = self.step;
                         self.clients[m].immediate.push(idx);
-                        self.clients[m].applied.push((idx, step, before));
+                        let _ = step;
+                        self.clients[m].applied.push((idx, 0, before));
                         self.clients[m].own_pending = None;
                         self.count("apply:merge-later");
                     }
@@ -1798,6 +1803,7 @@ impl World {
         idx: usize,
         obs: &mut dyn Observer,
     ) -> Result<Outcome, Failure> {
+        self.delivery_seq += 1;
         let ev = self.relay[idx].ev.clone();
         let before_key = self.clients[m].cur.clone();
         let redelivery = self.clients[m].delivered.contains_key(&idx);
@@ -1895,7 +1901,8 @@ impl World {
             self.clients[m].pending_props = held;
         }
         if matches!(outcome, Outcome::Commit) && self.clients[m].cur != before_key {
-            self.clients[m].applied.push((idx, step, before_key.clone()));
+            let seq = self.delivery_seq;
+            self.clients[m].applied.push((idx, seq, before_key.clone()));
         }
         if was_active && self.clients[m].cur.is_none() && self.group_state(m) == Some(GroupState::Inactive) {
             self.clients[m].evicted_by = Some(idx);
